@@ -282,6 +282,13 @@ func (s *State) enterLoop(l *Loop) {
 	for _, r := range mods.iters {
 		if it, ok := s.iters[r]; ok {
 			it.Seen = s.fresh("seen", arrSort(shapeOf(it.MapT.Key())[0].Sort, sBool))
+			it.Count = s.fresh("count", sInt)
+			s.assume(app("<=", "0", it.Count))
+			// visited keys are keys of the map (the map is not modified while it is ranged over)
+			ks := shapeOf(it.MapT.Key())[0].Sort
+			s.eng.counter++
+			q := sym(fmt.Sprintf("q?%d", s.eng.counter))
+			s.assume(fmt.Sprintf("(forall ((%s %s)) (! (=> (select %s %s) (select %s %s)) :pattern ((select %s %s))))", q, ks, it.Seen, q, s.mapDomIn(nil, it.MapT, it.MapRef), q, it.Seen, q))
 			s.iters[r] = it
 		}
 	}
@@ -1110,7 +1117,7 @@ func (s *State) exec(in ssa.Instruction) {
 			s.unsupported("range over %s", in.X.Type())
 		}
 		ks := shapeOf(mt.Key())[0].Sort
-		s.iters[in] = iterState{MapRef: xv.Terms[0], MapT: mt, Seen: zeroOfSort(arrSort(ks, sBool))}
+		s.iters[in] = iterState{MapRef: xv.Terms[0], MapT: mt, Seen: zeroOfSort(arrSort(ks, sBool)), Count: "0"}
 		s.regs[in] = Val{T: in.Type(), Terms: []string{"0"}}
 	case *ssa.Next:
 		s.regs[in] = s.execNext(in)
@@ -1398,10 +1405,17 @@ func (s *State) execSlice(in *ssa.Slice, where string) Val {
 		// slicing an array through its address (slice literals, varargs)
 		av := s.load(s.locOf(x), where)
 		at := derefType(in.X.Type()).Underlying().(*types.Array)
-		if lo != "" || hi != "" {
+		n := int(at.Len())
+		if (lo != "" && lo != "0") || (hi != "" && (constIndexStr(hi) < 0 || constIndexStr(hi) > n)) {
 			s.unsupported("partial slice of array at %s", where)
 		}
-		v := Val{T: in.Type(), Terms: []string{fmt.Sprint(at.Len()), "false"}}
+		if hi != "" {
+			n = constIndexStr(hi)
+		}
+		v := Val{T: in.Type(), Terms: []string{fmt.Sprint(n), "false"}}
+		if n < len(av.Elems) {
+			av.Elems = av.Elems[:n]
+		}
 		for i, t := range av.Terms {
 			v.Terms = append(v.Terms, s.define("lit", shapeOf(in.Type())[2+i].Sort, t))
 		}
@@ -1626,6 +1640,13 @@ func (s *State) execNext(in *ssa.Next) Val {
 	seen2 := s.fresh("seen", arrSort(ks, sBool))
 	s.assume(eq(seen2, ite(okc, store(it.Seen, k, "true"), it.Seen)))
 	it.Seen = seen2
+	// every key is visited exactly once: when the iteration ends the number of visited keys is the size of the map
+	s.assume(implies(not(okc), eq(it.Count, ite(eq(it.MapRef, "0"), "0", s.mapCardIn(nil, mt, it.MapRef)))))
+	// a key not yet visited exists only while fewer keys than the map holds were visited
+	s.assume(implies(okc, app("<", it.Count, s.mapCardIn(nil, mt, it.MapRef))))
+	cnt := s.fresh("count", sInt)
+	s.assume(eq(cnt, ite(okc, app("+", it.Count, "1"), it.Count)))
+	it.Count = cnt
 	s.iters[r] = it
 	val := s.mapValIn(nil, mt, it.MapRef, k)
 	sh := shapeOf(mt.Elem())
